@@ -89,6 +89,10 @@ class ModelBuilder:
                               value_info=self.main.vi)
         dom = "ai.onnx" if self.alias else ""
         imports = [helper.make_opsetid(dom, self.s)]
+        if getattr(self, "no_default_import", False):
+            # a main graph made only of function calls: the model itself need not import the default domain, only the
+            # functions do (their own opset_import)
+            imports = []
         if self.functions:
             imports.append(helper.make_opsetid(FN_DOMAIN, 1))
         m = helper.make_model(g, opset_imports=imports, ir_version=ir_version, producer_name="vf-c10", functions=self.functions)
@@ -322,6 +326,7 @@ def _choices(r):
 TEMPLATES = [
     "dft_axis", "dft_noaxis", "dft_len_inverse", "grid_bilinear", "grid_bicubic", "grid_nearest_plain",
     "gn_pergroup_static", "gn_eq_and_scale_input", "gn_symC", "gn_noshape", "plain_inits", "subgraph", "function", "mix",
+    "fn_only_imports",
 ]
 
 
@@ -384,6 +389,13 @@ def build(template, s, seed_rng, alias=False):
         wrapped(_wrap_function(mb, "plain", {}, "f_plain", with_ref_attr=True), "fn_plain_refattr")
         wrapped(_wrap_function(mb, "dft", {"rank": 3, "axis": 1}, "f_dft", nested=True), "fn_nested_dft_axis")
         wrapped(_wrap_function(mb, "gn", dict(gn, variant="static"), "f_gn"), "fn_gn_static")
+    elif template == "fn_only_imports":
+        # every node of the main graph is a function call and the model-level opset_import lists only the function domain:
+        # the default domain is imported by the functions alone (it must appear at model level once they are inlined)
+        wrapped(_wrap_function(mb, "plain", {}, "f_plain"), "fn_plain_only_import")
+        wrapped(_wrap_function(mb, r.choice(["grid", "dft"]), {"mode": "bilinear", "align_corners": c["align"], "rank": 3, "axis": 1}, "f_adapt"),
+                "fn_adapted_only_import")
+        mb.no_default_import = True
     elif template == "mix":
         top("dft", {"rank": 4, "axis": 2}, "dft_r4_axis")
         top("grid", {"mode": "bilinear", "align_corners": c["align"]}, "grid_bilinear")
